@@ -25,7 +25,7 @@ shims).  Directives:
           //@foridx rule=E18 find=<<for PAT in &EXPR>> [idx=<name>] [nth=k of=n]   payload = invariants;
                                  `for PAT in &EXPR { B }` over a Vec/slice by reference whose body uses
                                  `continue` -> index-based `while` (index advanced before B)
-          //@replaceslice rule=SLICE-CALL from=<<tokens>> to_block_end=1 | until=<<tokens>> | through=<<tokens>>
+          //@replaceslice rule=SLICE-CALL of=<group>:<unit> | from=<<tokens>> to_block_end=1 | until=<<tokens>> | through=<<tokens>>
                                  payload (a call of the slice's wrapper function) replaces exactly the
                                  statement range a slice unit with the same anchors verifies
   //@stubof group=<g> unit=<ID>         emit `#[verifier::external_body] <signature + contract of unit ID
@@ -563,6 +563,14 @@ def apply_ops(unit, fn_text, log):
             # Rule SLICE-CALL: the statement range that a slice unit with the same anchors verifies as a
             # function of its own is replaced by the payload (a call of that function); everything
             # outside the range stays verbatim.
+            if 'of' in a:
+                # `of=<group>:<unit>`: take the anchors from the slice unit itself, so that the replaced
+                # range is by construction the verified one
+                ua = unit_args_of(*a['of'].split(':', 1))
+                a = dict(a, **{'from': ua['slice_from'], 'to_block_end': ua.get('slice_to_block_end', '0')})
+                for k_from, k_to in (('slice_until', 'until'), ('slice_through', 'through')):
+                    if k_from in ua:
+                        a[k_to] = ua[k_from]
             st, en = slice_region(unit.id, s, a['from'], a.get('to_block_end') == '1', a.get('until'), a.get('through'))
             s = s[:st] + payload_txt.strip() + '\n' + s[en:]
             log.append({'unit': unit.id, 'rule': 'SLICE-CALL', 'what': 'statements `%s` .. (%s) replaced by `%s`' % (
@@ -597,7 +605,7 @@ def apply_ops(unit, fn_text, log):
                         if depth == 0:
                             break
                         depth -= 1
-                    elif ch == ',' and depth == 0:
+                    elif ch in ',;' and depth == 0:  # `;`: closure bound by a `let`
                         break
                     j += 1
                 bs, be = k, j
@@ -673,6 +681,17 @@ def slice_region(uid, body, from_anchor, to_block_end, until, through):
             break
         k += 1
     return st, rustlex.match_close(mb, k) + 1
+
+
+def unit_args_of(group, uid):
+    """key/value arguments of the `//@unit id=<uid>` directive of contracts/groups/<group>.rs"""
+    path = os.path.join(VERIF, 'contracts', 'groups', group + '.rs')
+    with open(path, encoding='utf-8') as f:
+        for l in f.read().split('\n'):
+            t = l.strip()
+            if t.startswith('//@unit ') and parse_kv(t[len('//@unit '):]).get('id') == uid:
+                return parse_kv(t[len('//@unit '):])
+    raise ExtractError('unit %s not found in group %s' % (uid, group))
 
 
 def unit_contract_of(group, uid):
